@@ -24,7 +24,8 @@ fn $name() {
     let mut cb = mk_dump(4);
     // one entry: the per-address grouping is C08's claim (c08_aggregate); with two String-keyed entries the
     // model map's key comparisons made symbolic execution run out of memory under the fault schedule
-    cb.unspents.insert(key(1), common::UnspentValue { block_height: 1, value: 5, address: String::from("a") });
+    // value 0: an address owning only zero-value outputs is still listed once (C08)
+    cb.unspents.insert(key(1), common::UnspentValue { block_height: 1, value: 0, address: String::from("a") });
     match cb.on_complete(1) {
         Ok(()) => unsafe {
             assert!(!gfs::WRITE_FAILED.v, "C10:exit_0_implies_no_write_failed");
@@ -44,7 +45,7 @@ fn $name() {
 }
     };
 }
-//@ id=C10 tier=quick name=c10_balances_ok timeout=900 role=flush_before_rename bound=Balances,1-entry,buffer-4,fault-free fn=Balances::on_complete
+//@ id=C10,C08 tier=quick name=c10_balances_ok timeout=900 role=flush_before_rename bound=Balances,1-entry,buffer-4,fault-free fn=Balances::on_complete
 balances_flush!(c10_balances_ok, usize::MAX);
 //@ id=C10 tier=quick name=c10_balances_f0 timeout=900 role=flush_before_rename bound=Balances,1-entry,buffer-4,the-(only)-write-call-fails
 balances_flush!(c10_balances_f0, 0);
